@@ -373,6 +373,15 @@ func consistentJobs() []Job {
 			Bounds:       fmt.Sprintf("ast.consistent, case %d (0 all defined, 1 undefined production, 2 undefined token, 3 both, 4 empty alternative); spellings and every map iteration order symbolic", mode),
 		})
 	}
+	for _, mp := range [][2]int{{1, 1}, {0, 1}, {1, 2}} {
+		jobs = append(jobs, Job{
+			Name:         fmt.Sprintf("consistent mode=%d pre=%d", mp[0], mp[1]),
+			Target:       ta,
+			Run:          SymRun{Harness: "VerifC14Consistent", Params: map[string]int{"MODE": mp[0], "PRE": mp[1]}, LoopBound: 24, SymbolicMapOrder: true, Prune: true},
+			ReplayParams: map[string]int{"REPEAT": 200},
+			Bounds:       fmt.Sprintf("ast.consistent, case %d with the references behind %s; spellings and every map iteration order symbolic", mp[0], map[int]string{1: "the error symbol (recovery alternative)", 2: "a defined token"}[mp[1]]),
+		})
+	}
 	for kind := 0; kind <= 2; kind++ {
 		jobs = append(jobs, Job{
 			Name:           fmt.Sprintf("duplicate definitions kind=%d", kind),
